@@ -284,25 +284,25 @@ FAMILIES['glencoe-Ctc2']['quick']['cap'] = 6000
 FAMILIES.update({
     'C12-Tree': {
         'quick':    dict(consts=dict(N=4, MaxKids=3, MinHi=1), invariants=tlc.GEN_INVARIANTS),
-        'thorough': dict(consts=dict(N=5, MaxKids=4, MinHi=1), invariants=tlc.GEN_INVARIANTS, cap=400),
+        'thorough': dict(consts=dict(N=5, MaxKids=4, MinHi=1), invariants=tlc.GEN_INVARIANTS, cap=250),
     },
     'C12-Ctc': {
         'quick':    dict(consts=dict(N=3, MaxKids=2, MinHi=1, Axes={'ctc'}, MaxCtc=1, CtcDepth=1, CtcBinOps=LOGIC_BIN, CtcMinFeatures=3),
                          invariants=tlc.GEN_INVARIANTS, cap=150),
         'thorough': dict(consts=dict(N=3, MaxKids=2, MinHi=1, Axes={'ctc'}, MaxCtc=1, CtcDepth=1, CtcBinOps=LOGIC_BIN, CtcMinFeatures=2),
-                         invariants=tlc.GEN_INVARIANTS, cap=600),
+                         invariants=tlc.GEN_INVARIANTS, cap=300),
     },
     'C12-Ctc2': {   # two constraints carrying the same name
         'quick':    dict(consts=dict(N=2, MaxKids=1, MinHi=1, Axes={'ctc'}, MaxCtc=2, CtcDepth=1, CtcBinOps={'IMPLIES', 'EXCLUDES'},
                                      CtcMinFeatures=2, CtcSameName=True), invariants=tlc.GEN_INVARIANTS, cap=80),
         'thorough': dict(consts=dict(N=2, MaxKids=1, MinHi=1, Axes={'ctc'}, MaxCtc=2, CtcDepth=1, CtcBinOps={'IMPLIES', 'EXCLUDES'},
-                                     CtcMinFeatures=2, CtcSameName=True), invariants=tlc.GEN_INVARIANTS, cap=600),
+                                     CtcMinFeatures=2, CtcSameName=True), invariants=tlc.GEN_INVARIANTS, cap=250),
     },
     'C12-Attr': {
         'quick':    dict(consts=dict(N=2, MaxKids=1, MinHi=1, Axes={'attr', 'abs'}, AttrNames=['a1'], AttrVals=ATTR_VALS_JSON[:6]),
                          invariants=tlc.GEN_INVARIANTS, cap=60),
         'thorough': dict(consts=dict(N=2, MaxKids=1, MinHi=1, Axes={'attr', 'abs'}, AttrNames=['a1'], AttrVals=ATTR_VALS_JSON),
-                         invariants=tlc.GEN_INVARIANTS, cap=400),
+                         invariants=tlc.GEN_INVARIANTS, cap=200),
     },
 })
 
@@ -436,12 +436,12 @@ FAMILIES.update(edit_families('uvl-', 'uvl', ALL_OPS_NOT_XOR, attrs=ATTR_VALS_UV
 FAMILIES.update(edit_families('afm-', 'afm', ALL_OPS_NOT_XOR, abstract=False, q=(500, 100)))
 FAMILIES.update(edit_families('fide-', 'fide', ALL_OPS_NOT_XOR, q=(500, 100)))
 FAMILIES.update(edit_families('glencoe-', 'glencoe', LOGIC_BIN, abstract=False, q=(500, 100)))
-FAMILIES.update(edit_families('C12-', ops=LOGIC_BIN, q=(60, 40), t=(400, 200)))
+FAMILIES.update(edit_families('C12-', ops=LOGIC_BIN, q=(60, 40), t=(130, 120)))
 FAMILIES['C12-Deep'] = {   # walks: constraints in the and/or/not fragment grown to depth 4 (what CNF conversion rewrites)
     'quick':    dict(consts=dict(N=4, MaxKids=3, MinHi=1, Axes={'ctc'}, MaxCtc=1, CtcDepth=1, CtcBinOps={'AND', 'OR'}, CtcMinFeatures=4, CtcGrow=3),
                      invariants=tlc.GEN_INVARIANTS, simulate=dict(num=150, depth=9), cap=80),
     'thorough': dict(consts=dict(N=4, MaxKids=3, MinHi=1, Axes={'ctc'}, MaxCtc=2, CtcDepth=1, CtcBinOps={'AND', 'OR', 'IMPLIES'}, CtcMinFeatures=4, CtcGrow=3),
-                     invariants=tlc.GEN_INVARIANTS, simulate=dict(num=1500, depth=10), cap=500),
+                     invariants=tlc.GEN_INVARIANTS, simulate=dict(num=1500, depth=10), cap=100),
 }
 
 # Cross-format chains (x-<a>-<b>-*): models inside BOTH fragments; the harness writes and reads them
